@@ -99,7 +99,7 @@ def coq_case(case, res, strict_err=True):
     return '(%s, %s, %s)' % (ins, ops, cq_expect(res, strict_err))
 
 HEADER = ('From DA Require Import Prelude NDArray Array PyRT.\n'
-          'From DA.Model Require Import Value Reshape Indexing Ops.\n'
+          'From DA.Model Require Import Value Reshape Indexing Align Ops.\n'
           'Open Scope string_scope.\n')
 
 # ---------------------------------------------------------------- indexing (C01, C02, C03)
@@ -250,3 +250,99 @@ class _:
 
 def snapshot(a):
     return json.dumps(in_json(a), sort_keys=True, default=str)
+
+# ---------------------------------------------------------------- alignment family (C04 C06 C07 C12)
+def kind_of_labels(labels, kind=None):
+    return kind or guess_kind(labels)
+
+def cq_fill(v):
+    k = 'b' if isinstance(v, bool) else 'i' if isinstance(v, int) else 'f' if isinstance(v, float) else 'U'
+    return cq_cell(v), cq_kind(k)
+
+@op('reindex')
+class _:
+    def run(a, ins, labels, kind, r, fill, raise_error, method, as_):
+        vals = labs_np(labels, kind)
+        if as_ == 'list': vals = [py_label(x) for x in labels]
+        kw = {}
+        if fill is not None: kw['fill_value'] = fill if not isinstance(fill, dict) else float('nan')
+        return a.reindex_axis(vals, axis=r, raise_error=raise_error, method=method, **kw)
+    def coq(labels, kind, r, fill, raise_error, method, as_):
+        vk = kind_of(np.asarray([py_label(x) for x in labels])) if as_ == 'list' and labels else kind
+        if vk in ('U', 'S'): vk = 'U'
+        c, fk = cq_fill(float('nan') if fill is None or isinstance(fill, dict) else fill)
+        m = {None: 'MNone', 'left': 'MLeft', 'right': 'MRight'}[method]
+        return '(OReindex %s %s %s %s %s %s %s)' % (cq_kind(vk), cq_labs(labels), cq_axref(r), c, fk,
+                                                    'true' if raise_error else 'false', m)
+
+@op('reindex_axisobj')
+class _:
+    def run(a, ins, ax): return a.reindex_axis(mk_axis(ax['name'], ax['labels'], ax['kind']))
+    def coq(ax): return '(OReindexAxisObj %s)' % cq_axis_in(ax)
+
+@op('reindex_like')
+class _:
+    def run(a, ins, i): return a.reindex_like(ins[i])
+    def coq(i): return '(OReindexLike %d)' % i
+
+@op('align')
+class _:
+    def run(a, ins, join, axis, sort):
+        return da().align(list(ins), join=join, axis=axis, sort=sort)
+    def coq(join, axis, sort):
+        return '(OAlign %s %s %s)' % ('Outer' if join == 'outer' else 'Inner', cq_opt(axis, cq_str), 'true' if sort else 'false')
+
+_BINOP = {'+': 'BAdd', '-': 'BSub', '*': 'BMul', '/': 'BDiv', '//': 'BFloorDiv', '**': 'BPow'}
+def py_binop(o, x, y):
+    import operator
+    return {'+': operator.add, '-': operator.sub, '*': operator.mul, '/': operator.truediv,
+            '//': operator.floordiv, '**': operator.pow}[o](x, y)
+
+@op('binop')
+class _:
+    def run(a, ins, o, i, reflected): return py_binop(o, ins[i], a) if reflected else py_binop(o, a, ins[i])
+    def coq(o, i, reflected): return '(%s %s %d)' % ('OBinopR' if reflected else 'OBinop', _BINOP[o], i)
+
+@op('scalar_op')
+class _:
+    def run(a, ins, o, v, reflected): return py_binop(o, v, a) if reflected else py_binop(o, a, v)
+    def coq(o, v, reflected):
+        c, k = cq_fill(v)
+        return '(OScalarOp %s %s %s %s)' % (_BINOP[o], c, k, 'true' if reflected else 'false')
+
+@op('ndarray_op')
+class _:
+    def run(a, ins, o, rhs): return py_binop(o, a, py_rhs(rhs))
+    def coq(o, rhs): return '(ONdarrayOp %s %s)' % (_BINOP[o], cq_rhs(rhs)[6:-1])
+
+@op('stack')
+class _:
+    def run(a, ins, name, keys, kkind, align, sort, as_dict):
+        kw = {}
+        if align: kw = {'align': True, 'sort': sort}
+        D = da()
+        if as_dict:
+            return D.stack({py_label(k): x for k, x in zip(keys, ins)}, axis=name, **kw)
+        return D.stack(list(ins), axis=name, keys=None if keys is None else [py_label(k) for k in keys], **kw)
+    def coq(name, keys, kkind, align, sort, as_dict):
+        if keys is None: raise Unsupported('default keys need the number of inputs')
+        return '(OStack %s %s %s %s %s)' % (cq_opt(name, cq_str), cq_kind(kkind), cq_labs(keys),
+                                            'true' if align else 'false', 'true' if sort else 'false')
+
+@op('concatenate')
+class _:
+    def run(a, ins, r, align, sort):
+        kw = {'align': True, 'sort': sort} if align else {}
+        return da().concatenate(list(ins), axis=r, **kw)
+    def coq(r, align, sort):
+        return '(OConcat %s %s %s)' % (cq_axref(r), 'true' if align else 'false', 'true' if sort else 'false')
+
+@op('sort_axis')
+class _:
+    def run(a, ins, r): return a.sort_axis(axis=r)
+    def coq(r): return '(OSortAxis %s)' % cq_axref(r)
+
+@op('broadcast_arrays')
+class _:
+    def run(a, ins): return da().broadcast_arrays(*ins)
+    def coq(): return 'OBroadcastArrays'
